@@ -506,6 +506,9 @@ class TcpHandler(SourceSeg):
                       text='len(reads) == 0 and (source.stopped or %s)' % ('True' if self.resume_exc else 'False'))]
         if self.start == 1 and not self.resume_exc:
             out.append(Clause('C18.one_emission_per_completed_read', ['C18'], when='any', text='emitted == [data]'))
+            # C03 (sources wait for the consumers of a record before they read the next one): the generic segment clauses
+            # "a coroutine that emits suspends on what it has just emitted"
+            out += [c for c in self.segment_clauses() if c.name.startswith('C03.')]
         else:
             out.append(Clause('C18.nothing_emitted_without_a_completed_read', ['C18'], when='any', text='emitted == []'))
         return out
@@ -520,7 +523,12 @@ class TcpHandlerClosed(TcpHandler):
     resume_exc = True
 
 
-ALL_TCP = [TcpHandler, TcpHandlerResumed, TcpHandlerClosed]
+class TcpHandlerAfterEmission(TcpHandler):
+    """resumed after the consumers of the record have finished: back to the head of the loop (a new read only while running)"""
+    start = 2
+
+
+ALL_TCP = [TcpHandler, TcpHandlerResumed, TcpHandlerClosed, TcpHandlerAfterEmission]
 ALL = ALL + ALL_TCP
 
 
